@@ -60,6 +60,11 @@ func targetDuration(segments []muxerSegment) int {
 		}
 	}
 
+	// a target duration of zero (every segment shorter than 0.5 s) is read as "not set" by clients
+	if ret < 1 {
+		ret = 1
+	}
+
 	return ret
 }
 
